@@ -83,7 +83,8 @@ def lit_job(tier, c_edge):
     closure of the old one plus that edge, the constraint becomes the enforced one of its pair and the APSP invariants are
     kept.  On conflict nothing changes, and the explanation clause is falsified by the current assignment and ends in !p."""
     N = 3
-    d = {'U_BITS': 8, 'I_BITS': 8, 'WIDE_BITS': 16, 'XT_N': N, 'XT_R': 3, 'XT_MC': 2, 'XT_NV': 4}
+    MC = N * (N - 1)
+    d = {'U_BITS': 8, 'I_BITS': 8, 'WIDE_BITS': 16, 'XT_N': N, 'XT_R': 3, 'XT_MC': MC, 'XT_NV': 4}
     PROPE = 'smt_idl_theory_propagate__U__U__I'
     # the callee: everything propagate(from, to, dist) was proved to need and to guarantee (is_fresh / recording clauses dropped)
     ce = Contract(requires=[r for r in c_edge.requires if 'is_fresh' not in r and 'spa_rec' not in r],
@@ -108,8 +109,9 @@ def lit_job(tier, c_edge):
                   # p has just been made true
                   'spl_assigns_wf(%s->assigns) && (p->x >> 1) < XT_NV && (p->x >> 1) >= 1 && spl_value(%s->assigns, *p) == SPL_TRUE' % (SATP, SATP),
                   'spl_wf_C(self->dist_constr)',
-                  '(self->dist_constr.n < 1 || (__CPROVER_is_fresh(self->dist_constr.e[0].second, sizeof(*%s)) && (self->dist_constr.e[0].second->b.x >> 1) < XT_NV))' % DD,
-                  '(self->dist_constr.n < 2 || (__CPROVER_is_fresh(self->dist_constr.e[1].second, sizeof(*%s)) && (self->dist_constr.e[1].second->b.x >> 1) < XT_NV))' % DD,
+                  ] + ['(self->dist_constr.n < %d || (__CPROVER_is_fresh(self->dist_constr.e[%d].second, sizeof(*%s)) && (self->dist_constr.e[%d].second->b.x >> 1) < XT_NV))' % (k + 1, k, DD, k) for k in range(MC)] + [
+                  # link invariant: every ghost edge is the enforced constraint of its pair, read under the current assignment
+                  'spl_link(%s->assigns, self->dist_constr, xt_E)' % SATP,
                   # assumed (not yet proved as an invariant of the edge step): predecessor rows are trees, walks end within N - 1 hops
                   'spa_walk_ok(self->_preds, %s, %s) && spa_walk_ok(self->_preds, %s, %s)' % (T, F, F, T),
                   'spa_rec(self->_dists, self->_preds, xt_E, %s, %s, %s) && spl_rec(%s->assigns, self->dist_constr, *p)' % (F, T, K, SATP)],
@@ -121,9 +123,15 @@ def lit_job(tier, c_edge):
                  ('constraint_becomes_the_enforced_one_of_its_pair', '!%s || (%s ? spl_C_eq_except(%s, self->dist_constr, %s, %s, %s) : spl_C_eq_except(%s, self->dist_constr, XT_N, XT_N, 0))' % (
                      R, IMPROVES, C0, EF, ET, DD, C0)),
                  ('conflict_changes_nothing', '%s || (spa_D_same(%s, self->_dists) && spa_P_same(%s, self->_preds) && spl_C_eq_except(%s, self->dist_constr, XT_N, XT_N, 0))' % (R, D0, P0, C0)),
-                 ('conflict_clause_is_falsified_and_ends_with_not_p', '%s || spl_conflict_clause_ok(%s->assigns, self->base_theory.cnfl, *p)' % (R, SATP))],
+                 ('conflict_clause_is_falsified_and_ends_with_not_p', '%s || spl_conflict_clause_ok(%s->assigns, self->base_theory.cnfl, *p)' % (R, SATP)),
+                 ('conflict_explanation_is_a_negative_cycle_of_enforced_constraints', '%s || spl_explains(%s->assigns, %s, %s, xt_E, %s, %s, %s, %s, self->base_theory.cnfl, *p)' % (
+                     R, SATP, C0, P0, D0, ET, EF, EK)),
+                 ('WITNESS_conflict_with_a_two_hop_explanation_is_reachable', '%s || self->base_theory.cnfl.n < 3' % R),
+                 ('WITNESS_conflict_on_a_false_literal_is_reachable', '%s || %s' % (R, V)),
+                 ('WITNESS_tightening_without_conflict_is_reachable', '!%s || !%s' % (R, IMPROVES)),
+                 ('without_conflict_link_invariant_kept', '!%s || spl_link(%s->assigns, self->dist_constr, %s)' % (R, SATP, E1))],
         assigns='__exc, self->_dists, self->_preds, self->base_theory.cnfl, self->dist_constr')
-    caps = {'vec_vec_I': N, 'vec_I': N, 'vec_vec_U': N, 'vec_U': N, 'map_pair_U_U_vec_idl_distancep': 1, 'vec_idl_distancep': 1, 'map_pair_U_U_idl_distancep': 3,
+    caps = {'vec_vec_I': N, 'vec_I': N, 'vec_vec_U': N, 'vec_U': N, 'map_pair_U_U_vec_idl_distancep': 1, 'vec_idl_distancep': 1, 'map_pair_U_U_idl_distancep': MC + 1,
             'vec_lit': N, 'vec_us': 4, 'vec_layer': 1, 'map_pair_U_U_I': 1, 'map_pair_U_U_U': 1, 'umap_U_idl_distancep': 1,
             'umap_U_set_idl_value_listenerp': 1, 'set_idl_value_listenerp': 1}
     return Job('idl.propagate_lit', 'smt_idl_theory_propagate__lit', tus=TUS, contract=c, defines=d, unwind=N + 2, model_unwind=12,
@@ -131,7 +139,7 @@ def lit_job(tier, c_edge):
                caps=caps, abstract_fields=dict(ABS, **{'smt::idl_theory': ABS['smt::idl_theory'] + ['var_dists']}), timeout=3000, mem_gb=24, mem_est=6, solver='cadical',
                force_types=['std::vector<std::vector<long>>', 'std::vector<std::vector<unsigned long>>'],
                replay={'driver': 'dl', 'stanza': LIT_REPLAY},
-               bounded='%d time points, weights in [-3, 3] (the constraint of p in [-3, 2] so that its negation is in range too); <= 2 enforced constraints before the call; root level (no open undo layer); no registered constraints to re-propagate' % N)
+               bounded='%d time points, weights in [-3, 3] (the constraint of p in [-3, 2] so that its negation is in range too); <= %d enforced constraints before the call; root level (no open undo layer); no registered constraints to re-propagate' % (N, MC))
 
 
 LIT_REPLAY = '''  const int n = XT_N; sat_core sat; long xinf = 62;
